@@ -1,15 +1,20 @@
 """C18 (trie part) — structural necessary conditions of the chord trie; the behaviour over registration
 histories is NOT decided, only these shapes:
-  T1 the trie (`KeyMap.mapping`) is mutated only inside register (+ its helper/closures), clear and the constructors;
-  T2 lookup_state: pushes the key first; on Failure clears the pending chord and pushes the key again before the retry;
-     on Success clears the pending chord before returning the value;
-  T3 register: the last key is inserted as Ok(value) into the map reached through register_rec over the prefix, and
-     register_rec replaces a bound prefix (Ok) by a fresh sub-map (supersession)."""
+  T1 the trie (`KeyMap.mapping`) is mutated only inside register (+ its private helpers/closures, whatever their names), clear and
+     the constructors;
+  T2 lookup_state: pushes the key first; on Failure the pending chord is reset to the new key alone before the retry / return
+     (clear + push(key), or the chord is known to hold one element, which is the key pushed first); on Success clears the
+     pending chord before returning the value;
+  T3 register: the last key is inserted as Ok(value) into the map reached by the descent helper over the prefix, and the
+     descent replaces a bound prefix (Ok) by a fresh sub-map (supersession).
+Decided on canonical terms / CFG facts: helper and local names, arm order, `?` vs `match`, added debug assertions do not matter."""
 import re
 from ..mir import call_matches, callee_name, op_local
 from ..flow import expr, value_variants
+from .c16 import size_test, bool_edges, inl, xcalls
 
 MUTATORS = r"BTreeMap::<K, V, A>::(insert|entry|clear|remove|retain|append|extend|pop_first|pop_last|get_mut|iter_mut|values_mut|first_entry|last_entry|split_off|remove_entry)$|<std::collections::BTreeMap<K, V, A> as std::iter::Extend"
+WRITER_ROOTS = r"^keys::KeyMap::<V>::(register|clear|new)$|^<keys::KeyMap<V> as std::default::Default>::default$"
 
 
 def variant_edge(body, t_call, variant_idx):
@@ -27,10 +32,61 @@ def variant_edge(body, t_call, variant_idx):
     return None, None
 
 
+def writer_family(prog):
+    """register / clear / constructors, their closures, and every non-public function of keys.rs all of whose callers already
+    belong to the family (private helpers of register — nested or not, recursive or not — under any name)"""
+    fam = {b.path for b in prog.bodies if re.search(WRITER_ROOTS, b.path)}
+    cg = prog.callgraph()
+    changed = True
+    while changed:
+        changed = False
+        for b in prog.bodies:
+            if b.path in fam or not b.file.endswith("keys.rs"):
+                continue
+            if b.kind == "Closure":
+                if b.closure_root in fam:
+                    fam.add(b.path)
+                    changed = True
+                continue
+            if b.j.get("vis") == "Public" or b.impl_trait:
+                continue
+            cs = set(cg.callers(b.path)) - {b.path}
+            cs = {c for c in cs if not ((prog.body(c) is not None) and prog.body(c).closure_root == b.path)}
+            if cs and cs <= fam:
+                fam.add(b.path)
+                changed = True
+    return fam
+
+
+def ok_edge_guard(body, cfg, blk):
+    """is block `blk` reached only through the `is Ok` side of a test on a Result (is_ok / is_err / discriminant / matches!)"""
+    for s, tt in body.terms():
+        if tt["k"] != "switch" or s == blk or not cfg.dominates(s, blk):
+            continue
+        e = expr(body, tt["d"])
+        neg = False
+        while e.startswith("Not(") and e.endswith(")"):
+            e, neg = e[4:-1], not neg
+        tgt = None
+        ed = bool_edges(tt)
+        if ed and re.match(r"^Result::is_ok\(", e):
+            tgt = ed[1] if neg else ed[0]
+        elif ed and re.match(r"^Result::is_err\(", e):
+            tgt = ed[0] if neg else ed[1]
+        elif e.startswith("discr(") and not neg:
+            if "0" in tt["vals"]:
+                tgt = tt["targets"][tt["vals"].index("0")]
+            elif tt["vals"] == ["1"]:
+                tgt = tt["otherwise"]
+        if tgt is not None and (tgt == blk or cfg.edge_dominates(s, tgt, blk)):
+            return True
+    return False
+
+
 def run_trie(ctx):
     prog = ctx.prog
-    ctx.rule("TRIE-WRITERS", "KeyMap.mapping is mutated only by register (+helper/closures), clear and constructors", floor=3)
-    allowed = re.compile(r"^keys::KeyMap::<V>::(register|register::register_rec|register::register_rec::\{closure#\d+\}|clear|new)$|^<keys::KeyMap<V> as std::default::Default>::default$")
+    ctx.rule("TRIE-WRITERS", "KeyMap.mapping is mutated only by register (+ private helpers/closures), clear and constructors", floor=3)
+    fam = writer_family(prog)
     n = 0
     for b in prog.bodies:
         if not b.file.endswith("keys.rs"):
@@ -38,7 +94,7 @@ def run_trie(ctx):
         for bb, t in b.calls():
             if call_matches(t, MUTATORS) and t["args"] and ".mapping" in expr(b, t["args"][0]):
                 n += 1
-                ok = allowed.match(b.path) is not None
+                ok = b.path in fam
                 ctx.instance("TRIE-WRITERS", {"fn": b.path, "op": callee_name(t).split("::")[-1], "allowed": ok})
                 if not ok:
                     ctx.violation("TRIE-WRITERS", b.path, callee_name(t).split("::")[-1],
@@ -47,22 +103,36 @@ def run_trie(ctx):
     if n == 0:
         ctx.anchor("TRIE-WRITERS", "mapping-mutators")
 
-    ctx.rule("TRIE-STATE", "lookup_state: push(key) first; Failure -> clear + push(key) before retry; Success -> clear before returning", floor=3)
-    ls = prog.body("keys::KeyMap::<V>::lookup_state")
-    if ls is None:
+    ctx.rule("TRIE-STATE", "lookup_state: push(key) first; Failure -> pending chord reset to [key] before retry/return; Success -> clear before returning", floor=3)
+    ls0 = prog.body("keys::KeyMap::<V>::lookup_state")
+    if ls0 is None:
         ctx.anchor("TRIE-STATE", "lookup_state")
     else:
+        ls = inl(prog, ls0.path, keep=r"^keys::KeyMap::<V>::lookup$")
         cfg = ls.cfg()
         lk = [(bb, t) for bb, t in ls.calls() if call_matches(t, r"^keys::KeyMap::<V>::lookup$")]
         pushes = [(bb, t) for bb, t in ls.calls() if call_matches(t, r"Vec::<T, A>::push$") and expr(ls, t["args"][0]) == "arg2" and expr(ls, t["args"][1]) == "arg3"]
         clears = [bb for bb, t in ls.calls() if call_matches(t, r"Vec::<T, A>::clear$") and expr(ls, t["args"][0]) == "arg2"]
-        other = [(bb, t) for bb, t in ls.calls() if re.search(r"Vec::<T, A>::(remove|truncate|pop|drain|retain|swap_remove|insert|split_off)$", callee_name(t) or "") and expr(ls, t["args"][0]) == "arg2"]
+        other = [(bb, t) for bb, t in ls.calls() if (re.search(r"Vec::<T, A>::(remove|truncate|pop|drain|retain|swap_remove|insert|split_off|extend_from_slice|append|resize|dedup)$", callee_name(t) or "")
+                                                       or (call_matches(t, r"Vec::<T, A>::push$") and expr(ls, t["args"][1]) != "arg3")) and expr(ls, t["args"][0]) == "arg2"]
         ok0 = len(lk) == 1 and bool(pushes) and any(cfg.dominates(pb, lk[0][0]) for pb, _ in pushes)
         ctx.instance("TRIE-STATE", {"push_key_before_lookup": ok0, "other_state_ops": [callee_name(t).split("::")[-1] for bb, t in other]})
         if not ok0:
             ctx.violation("TRIE-STATE", ls.path, "push-first", "the key is not appended to the pending chord before the lookup", sites=[ls.loc])
         for bb, t in other:
             ctx.violation("TRIE-STATE", ls.path, callee_name(t).split("::")[-1], "the pending chord is edited with %s: after a failed lookup the state must be reset to the new key alone" % callee_name(t).split("::")[-1], sites=["%s:%d" % (ls.file, t["line"])])
+        # The chord always ends with the key (pushed before the lookup, pushed again after every clear, nothing else edits it), so on the
+        # `chord.len() == 1` side of a test the chord already is [key]: that side counts as reset.
+        already = set()
+        if ok0 and not other:
+            for s, tt in ls.terms():
+                ed = bool_edges(tt)
+                st = size_test(expr(ls, tt["d"]), r"Vec::len\(arg2\)") if ed else None
+                if st is None:
+                    continue
+                for tgt, lo, hi in ((ed[0], st[0], st[1]), (ed[1], st[2], st[3])):
+                    if hi == 1 and ed[0] != ed[1] and cfg.pred[tgt] == [s]:
+                        already.add(tgt)     # len <= 1 and the key is in it
         if lk:
             ev = prog.enum_variants("keys::KeyMapResult") or []
             idx = {n: d for n, d in ev}
@@ -76,36 +146,51 @@ def run_trie(ctx):
                 ok = False
                 if tgt is not None:
                     exits = ([head] if head is not None else []) + cfg.returns
-                    ok = cfg.must_pass(clears, start=tgt, exits=exits)[0]
+                    ok = cfg.must_pass(set(clears) | (already if need_push else set()), start=tgt, exits=exits)[0]
                     if ok and need_push:
                         # after the clear, the key is pushed again before the retry
                         ok = all(cfg.must_pass([pb for pb, _ in pushes if pb in cfg.reachable_from(cb)], start=cb, exits=exits)[0] for cb in clears if cb in cfg.reachable_from(tgt) and not _only_success(cfg, cb, ls, lk[0][1], idx))
-                ctx.instance("TRIE-STATE", {"edge": var, "clears_pending_chord": ok})
+                ctx.instance("TRIE-STATE", {"edge": var, "clears_pending_chord": ok, "already_reset_blocks": sorted(already) if need_push else None})
                 if not ok:
                     ctx.violation("TRIE-STATE", ls.path, var.lower(), "on %s the pending chord is not reset (clear%s) before %s" % (var, " + push(key)" if need_push else "", "the retry" if need_push else "returning"), sites=[ls.loc])
 
-    ctx.rule("TRIE-REGISTER", "register: insert(last key, Ok(value)) into register_rec(prefix); register_rec turns a bound prefix into a sub-map", floor=2)
+    ctx.rule("TRIE-REGISTER", "register: insert(last key, Ok(value)) into descend(prefix); the descent turns a bound prefix into a sub-map", floor=2)
     rg = prog.body("keys::KeyMap::<V>::register")
-    rr = prog.body("keys::KeyMap::<V>::register::register_rec")
-    if rg is None or rr is None:
+    if rg is None:
         ctx.anchor("TRIE-REGISTER", "register/register_rec")
-    else:
-        ins = [(bb, t) for bb, t in rg.calls() if call_matches(t, r"BTreeMap::<K, V, A>::insert$")]
-        ok = len(ins) == 1 and re.match(r"^register::register_rec\(arg1, slice::split_last\(arg2\)@Some\.0\.1\)\.mapping$", expr(rg, ins[0][1]["args"][0])) is not None \
-            and expr(rg, ins[0][1]["args"][1]) == "slice::split_last(arg2)@Some.0.0" and expr(rg, ins[0][1]["args"][2]) == "Result::Ok(arg3)"
-        ctx.instance("TRIE-REGISTER", {"insert": [expr(rg, a)[:80] for a in ins[0][1]["args"]] if ins else None, "ok": ok})
-        if not ok:
-            ctx.violation("TRIE-REGISTER", rg.path, "insert", "register does not insert Ok(value) under the last key of the chord in the map reached through the prefix", sites=[rg.loc])
-        # closure#0 of register_rec: if r.is_ok() { *r = Err(KeyMap::new()) }
-        c0 = prog.body("keys::KeyMap::<V>::register::register_rec::{closure#0}")
-        ok2 = False
-        if c0 is not None:
+        return
+    rg = inl(prog, rg.path)      # private single-caller helpers (not the recursive descent) expanded in place
+    ins = [(bb, t) for bb, t in rg.calls() if call_matches(t, r"BTreeMap::<K, V, A>::insert$")]
+    rr = None
+    ok = False
+    if len(ins) == 1:
+        a = [expr(rg, x) for x in ins[0][1]["args"]]
+        # the split of the chord may be matched (`@Some`) or taken with `?` (`@Continue`); the descent helper may have any name
+        m = re.match(r"^(?P<h>[\w:]+)\(arg1, (?P<sl>slice::split_last\(arg2\)@(?:Some|Continue)\.0)\.1\)\.mapping$", a[0])
+        if m:
+            ok = len(a) == 3 and a[1] == m.group("sl") + ".0" and a[2] == "Result::Ok(arg3)"
+            for bb, t in rg.calls():
+                nm = callee_name(t) or ""
+                if (t["fn"].get("local") or t["fn"].get("resolved_local")) and nm.endswith("::" + m.group("h").split("::")[-1]) and prog.body(nm) is not None:
+                    rr = prog.body(nm)
+    ctx.instance("TRIE-REGISTER", {"insert": [expr(rg, a)[:80] for a in ins[0][1]["args"]] if ins else None, "descent": rr.path if rr else None, "ok": ok})
+    if rr is None and not ok:
+        ctx.anchor("TRIE-REGISTER", "register/register_rec")
+        return
+    if not ok:
+        ctx.violation("TRIE-REGISTER", rg.path, "insert", "register does not insert Ok(value) under the last key of the chord in the map reached through the prefix", sites=[rg.loc])
+    # in the descent (or one of its closures): `*r = Err(KeyMap::new())` only on the `r is Ok` side of a test
+    ok2 = False
+    if rr is not None:
+        for c0 in [rr] + [b for b in prog.bodies if b.closure_root == rr.path]:
+            ccfg = c0.cfg()
             for i, si, s in c0.assigns():
                 if s["rv"]["k"] == "agg" and s["rv"].get("variant") == "Err" and "KeyMap::new" in expr(c0, s["rv"]["fields"][0]):
-                    ok2 = any(call_matches(t, r"Result::<T, E>::is_ok$") for bb, t in c0.calls())
-        ctx.instance("TRIE-REGISTER", {"bound_prefix_replaced_by_submap": ok2})
-        if not ok2:
-            ctx.violation("TRIE-REGISTER", rr.path, "supersede", "register_rec does not replace a bound prefix (Ok) by a fresh sub-map: extensions of a bound chord would not supersede it", sites=[rr.loc])
+                    if ok_edge_guard(c0, ccfg, i):
+                        ok2 = True
+    ctx.instance("TRIE-REGISTER", {"bound_prefix_replaced_by_submap": ok2})
+    if not ok2:
+        ctx.violation("TRIE-REGISTER", (rr or rg).path, "supersede", "the descent of register does not replace a bound prefix (Ok) by a fresh sub-map: extensions of a bound chord would not supersede it", sites=[(rr or rg).loc])
 
 
 def _only_success(cfg, cb, body, lookup_call, idx):
